@@ -19,6 +19,8 @@ import (
 	"sync"
 	"time"
 
+	"golang.org/x/crypto/ssh"
+
 	"github.com/scrapli/scrapligo/driver/generic"
 	"github.com/scrapli/scrapligo/driver/options"
 	"github.com/scrapli/scrapligo/transport"
@@ -41,6 +43,9 @@ type Cell struct {
 	Cfg       bool   `json:"ssh_config"`  // argv cells: an ssh config file is configured
 	Rep       int    `json:"rep"`
 	ReadSize  int    `json:"read_size"`
+	Host      string `json:"host,omitempty"`            // "" = 127.0.0.1; "localhost" = a name (resolves via /etc/hosts)
+	PortMode  string `json:"port_mode,omitempty"`       // "" = the server's port; explicit22 = WithPort(22); default22 = no WithPort
+	CfgKind   string `json:"ssh_config_kind,omitempty"` // ssh config file with hostile directives (see setup); overrides ssh_config
 	// seq cells: states of ONE known-hosts path at consecutive strict opens in one process
 	Steps []string `json:"steps,omitempty"`
 	Reuse bool     `json:"reuse_transport,omitempty"` // one Transport object for all opens (else a fresh one per open)
@@ -60,6 +65,7 @@ var w struct {
 	users [2]userRec
 	kh    [3]map[string]string // per server: known-hosts state -> path
 	cfg   string
+	cfgs  map[string]string // hostile ssh config files by kind
 	seq   int
 	sshAt string
 }
@@ -142,8 +148,185 @@ func setup() error {
 			w.kh[i][kind] = p
 		}
 	}
+	// host given as the NAME localhost: entry sets {name: right|wrong|none|hashed} x {ip: right|wrong|none|hashed}
+	for i := 0; i < 2; i++ {
+		srv := w.srv[i]
+		line := func(host, how string) string {
+			l := sshsim.KnownHostsLine(srv.Port(), srv.HostKey())
+			switch how {
+			case "none":
+				return ""
+			case "wrong":
+				l = sshsim.KnownHostsLine(srv.Port(), sshsim.FreshPublicKey())
+			case "hashed":
+				if host == "localhost" {
+					return sshsim.HashedKnownHostsLineFor("localhost", srv.Port(), srv.HostKey())
+				}
+				return sshsim.HashedKnownHostsLine(srv.Port(), srv.HostKey())
+			}
+			return strings.Replace(l, "127.0.0.1", host, 1)
+		}
+		for _, n := range []string{"right", "wrong", "none", "hashed"} {
+			for _, ip := range []string{"right", "wrong", "none", "hashed"} {
+				st := "n=" + n + ",i=" + ip
+				p := filepath.Join(w.dir, fmt.Sprintf("known_hosts_%d_name_%s_ip_%s", i, n, ip))
+				if err := os.WriteFile(p, []byte(line("localhost", n)+line("127.0.0.1", ip)), 0o600); err != nil {
+					return err
+				}
+				w.kh[i][st] = p
+			}
+		}
+	}
+	// ssh config files with hostile but realistic directives (the driver's options must win)
+	other, err := sshsim.NewKeyFile(filepath.Join(w.dir, "id_other"))
+	if err != nil {
+		return err
+	}
+	w.cfgs = map[string]string{}
+	bodies := map[string]string{
+		"port":       "Host *\n  Port 2022\n",
+		"user":       "Host 127.0.0.1 localhost\n  User mallory\n",
+		"hostname":   "Host 127.0.0.1 localhost\n  HostName 127.0.0.2\n",
+		"identity":   "Host *\n  IdentityFile " + other.Path + "\n  IdentitiesOnly yes\n",
+		"strict-no":  "Host *\n  StrictHostKeyChecking no\n  UserKnownHostsFile /dev/null\n",
+		"strict-yes": "Host *\n  StrictHostKeyChecking yes\n  UserKnownHostsFile " + w.kh[0]["other"] + "\n",
+		"match":      "Match host 127.0.0.1,localhost\n  Port 2022\n  User mallory\n",
+		"all": "Host 127.0.0.1\n  Port 2022\n  User mallory\nHost *\n  IdentityFile " + other.Path +
+			"\n  StrictHostKeyChecking accept-new\n  UserKnownHostsFile /dev/null\n  Port 2023\n",
+		"benign":  "Host *\n  ServerAliveCountMax 3\n",
+		"decoy-0": fmt.Sprintf("Host 127.0.0.1 localhost\n  Port %d\n", w.srv[0].Port()),
+		"decoy-1": fmt.Sprintf("Match host 127.0.0.1\n  Port %d\n", w.srv[1].Port()),
+	}
+	for k, b := range bodies {
+		p := filepath.Join(w.dir, "ssh_config_"+k)
+		if err := os.WriteFile(p, []byte(b), 0o600); err != nil {
+			return err
+		}
+		w.cfgs[k] = p
+	}
 	w.cfg = filepath.Join(w.dir, "ssh_config")
 	return os.WriteFile(w.cfg, []byte("Host *\n  ServerAliveCountMax 3\n"), 0o600)
+}
+
+// resolveCheck asks the real client what it would do with the argument list the library built
+// (`ssh -G <args>`: effective settings after command line and config file processing) and compares
+// every field the driver had configured. Not argv-shape specific. nil, false = resolver unavailable.
+func resolveCheck(c Cell, args []string, ob *observed) (*mon.Result, bool) {
+	if w.sshAt == "" {
+		return nil, false
+	}
+	out, err := exec.Command(w.sshAt, append([]string{"-G"}, args...)...).Output()
+	if err != nil {
+		return nil, false
+	}
+	got := map[string][]string{}
+	for _, l := range strings.Split(string(out), "\n") {
+		f := strings.Fields(l)
+		if len(f) >= 2 {
+			got[f[0]] = append(got[f[0]], f[1:]...)
+		}
+	}
+	u := w.users[c.User]
+	bad := func(field, f string, a ...interface{}) (*mon.Result, bool) {
+		r := viol(c, "c14/resolved:"+field, ob, "ssh -G on the argument list %q: "+f, append([]interface{}{args}, a...)...)
+		return &r, true
+	}
+	first := func(k string) string {
+		if len(got[k]) > 0 {
+			return got[k][0]
+		}
+		return ""
+	}
+	if first("port") != strconv.Itoa(c.port()) {
+		return bad("port", "the client would connect to port %s, configured port is %d", first("port"), c.port())
+	}
+	if first("user") != u.name {
+		return bad("user", "the client would log in as %q, configured user is %q", first("user"), u.name)
+	}
+	if c.Auth != "password" {
+		found := false
+		for _, f := range got["identityfile"] {
+			if f == u.key.Path {
+				found = true
+			}
+		}
+		if !found {
+			return bad("identity", "the configured key %s is not among the identities the client would use %q", u.key.Path, got["identityfile"])
+		}
+	}
+	sk := first("stricthostkeychecking")
+	isYes, isNo := sk == "true" || sk == "yes", sk == "false" || sk == "no" || sk == "off"
+	if (c.Strict && !isYes) || (!c.Strict && !isNo) {
+		return bad("strict", "effective StrictHostKeyChecking is %q, the driver options say strict=%v", sk, c.Strict)
+	}
+	if c.Strict && c.KH != "none" {
+		if len(got["userknownhostsfile"]) != 1 || got["userknownhostsfile"][0] != w.kh[c.Srv][c.KH] {
+			return bad("known-hosts", "effective UserKnownHostsFile %q, configured %q", got["userknownhostsfile"], w.kh[c.Srv][c.KH])
+		}
+	}
+	// last, so that it never masks the other fields: a HostName directive for the configured host
+	if first("hostname") != c.host() {
+		return bad("host", "the client would connect to host %q, configured host is %q", first("hostname"), c.host())
+	}
+	return nil, true
+}
+
+// runDecoy: the driver is configured for port 22 (explicitly or by default) and an ssh config file
+// names the port of one of our servers (whose key the known-hosts file holds). Nothing may connect
+// to that server: the configured port is 22.
+func runDecoy(c Cell) mon.Result {
+	u := w.users[c.User]
+	var c0 [3]int64
+	for i, s := range w.srv {
+		for _, x := range w.users {
+			s.SetAccount(x.name, nil)
+		}
+		s.SetAccount(u.name, &sshsim.Account{Password: u.pw, Keys: []ssh.PublicKey{u.key.Public}})
+		s.SetHandler(func(ss *sshsim.Session) {
+			sv := sshsim.Serve(ss, cliDevice("decoy"), devsim.Seg{Mode: "whole"})
+			sv.Wait(10 * time.Second)
+			sv.Stop()
+		})
+		c0[i] = s.ConnCount()
+	}
+	ob := &observed{SSHBinary: w.sshAt}
+	d, err := generic.NewDriver(c.host(), c.opts()...)
+	if err != nil {
+		return viol(c, "c14/new-driver-failed", ob, "NewDriver: %v", err)
+	}
+	openErr := d.Open()
+	pid := 0
+	if sys, ok := d.Transport.Impl.(*transport.System); ok {
+		ob.OpenArgs = append([]string(nil), sys.OpenArgs...)
+		pid = sshsim.SystemPid(sys)
+	}
+	if openErr == nil {
+		ob.Open = "ok"
+		closeDriver(d)
+	} else {
+		ob.Open = openErr.Error()
+	}
+	sshsim.ReapPid(pid, true, 5*time.Second)
+	time.Sleep(20 * time.Millisecond)
+	for i, s := range w.srv {
+		if ev := s.EventsSince(c0[i]); len(ev) > 0 {
+			ob.OtherSrv = ev
+			return viol(c, "c14/"+c.Transport+"/wrong-port:port-from-ssh-config", ob,
+				"configured port is 22 (GetPort()=%d), but the server on port %d - named only in the ssh config file - saw a connection (open: %s)",
+				d.Transport.GetPort(), s.Port(), ob.Open)
+		}
+	}
+	obs := map[string]int64{"cells": 1, "port22_decoy_cells": 1}
+	if ob.OpenArgs != nil {
+		if r, ok := resolveCheck(c, ob.OpenArgs, ob); r != nil {
+			return *r
+		} else if ok {
+			obs["arglists_resolved_with_ssh_G"]++
+		}
+	}
+	return mon.Result{Verdict: mon.Held, NonTrivial: c.Strict, Obs: obs,
+		Tags:   []string{"decoy:" + c.Transport + "/" + c.PortMode},
+		Sample: map[string]interface{}{"cell": c.label(), "open": ob.Open, "open_args": ob.OpenArgs}}
 }
 
 func teardown() {
@@ -205,6 +388,12 @@ func (c Cell) expect() string {
 	if !c.Strict {
 		return "connect"
 	}
+	if strings.HasPrefix(c.KH, "n=") { // host given as a name: only the entries for that NAME count
+		if strings.HasPrefix(c.KH, "n=right,") || strings.HasPrefix(c.KH, "n=hashed,") {
+			return "connect"
+		}
+		return "refuse"
+	}
 	switch c.KH {
 	case "has", "revoked-other", "hashed", "cert-ca":
 		return "connect"
@@ -214,19 +403,57 @@ func (c Cell) expect() string {
 	return "refuse"
 }
 
+func (c Cell) host() string {
+	if c.Host != "" {
+		return c.Host
+	}
+	return "127.0.0.1"
+}
+
+// port is the configured port; the transport's default (22) counts as configured: it is what
+// Transport.GetPort() reports.
+func (c Cell) port() int {
+	if c.PortMode != "" {
+		return 22
+	}
+	return w.srv[c.Srv].Port()
+}
+
+func (c Cell) cfgPath() string {
+	if c.CfgKind != "" {
+		if c.CfgKind == "decoy" {
+			return w.cfgs[fmt.Sprintf("decoy-%d", c.Srv)]
+		}
+		return w.cfgs[c.CfgKind]
+	}
+	if c.Cfg {
+		return w.cfg
+	}
+	return ""
+}
+
 func (c Cell) label() string {
 	s := "nostrict"
 	if c.Strict {
 		s = "strict"
 	}
-	return fmt.Sprintf("%s/%s/kh=%s/auth=%s", c.Transport, s, c.KH, c.Auth)
+	x := ""
+	if c.Host != "" {
+		x += "/host=" + c.Host
+	}
+	if c.PortMode != "" {
+		x += "/port=" + c.PortMode
+	}
+	if c.CfgKind != "" {
+		x += "/sshconfig=" + c.CfgKind
+	}
+	return fmt.Sprintf("%s/%s/kh=%s/auth=%s%s", c.Transport, s, c.KH, c.Auth, x)
 }
 
 func (c Cell) opts(extra ...util.Option) []util.Option {
 	u := w.users[c.User]
 	o := []util.Option{
 		options.WithTransportType(c.Transport),
-		options.WithPort(w.srv[c.Srv].Port()),
 		options.WithAuthUsername(u.name),
 		options.WithTimeoutSocket(15 * time.Second),
 		options.WithTimeoutOps(25 * time.Second),
@@ -244,8 +471,11 @@ func (c Cell) opts(extra ...util.Option) []util.Option {
 	if !c.Strict {
 		o = append(o, options.WithAuthNoStrictKey())
 	}
-	if c.Cfg {
-		o = append(o, options.WithSSHConfigFile(w.cfg))
+	if c.PortMode != "default22" {
+		o = append(o, options.WithPort(c.port()))
+	}
+	if p := c.cfgPath(); p != "" {
+		o = append(o, options.WithSSHConfigFile(p))
 	}
 	return append(o, extra...)
 }
@@ -294,8 +524,8 @@ func checkArgs(c Cell, args []string, ob *observed) *mon.Result {
 			hosts = append(hosts, a)
 		}
 	}
-	if len(hosts) != 1 || hosts[0] != "127.0.0.1" {
-		return bad("host", "host arguments %q, configured host 127.0.0.1", hosts)
+	if len(hosts) != 1 || hosts[0] != c.host() {
+		return bad("host", "host arguments %q, configured host %s", hosts, c.host())
 	}
 	one := func(k, want string) *mon.Result {
 		if len(opt[k]) != 1 || opt[k][0] != want {
@@ -303,15 +533,15 @@ func checkArgs(c Cell, args []string, ob *observed) *mon.Result {
 		}
 		return nil
 	}
-	if r := one("-p", strconv.Itoa(w.srv[c.Srv].Port())); r != nil {
+	if r := one("-p", strconv.Itoa(c.port())); r != nil {
 		return r
 	}
 	if r := one("-l", u.name); r != nil {
 		return r
 	}
 	wantF := "/dev/null"
-	if c.Cfg {
-		wantF = w.cfg
+	if p := c.cfgPath(); p != "" {
+		wantF = p
 	}
 	if r := one("-F", wantF); r != nil {
 		return r
@@ -385,7 +615,7 @@ func runReal(c Cell) mon.Result {
 	}
 	ob := &observed{SSHBinary: w.sshAt}
 	t0 := time.Now()
-	d, err := generic.NewDriver("127.0.0.1", c.opts()...)
+	d, err := generic.NewDriver(c.host(), c.opts()...)
 	if err != nil {
 		return viol(c, "c14/new-driver-failed", ob, "NewDriver: %v", err)
 	}
@@ -481,6 +711,12 @@ func runReal(c Cell) mon.Result {
 	if ob.OpenArgs != nil {
 		argRes = checkArgs(c, ob.OpenArgs, ob)
 		obs["arglists_checked"]++
+		if argRes == nil {
+			var ok bool
+			if argRes, ok = resolveCheck(c, ob.OpenArgs, ob); ok && argRes == nil {
+				obs["arglists_resolved_with_ssh_G"]++
+			}
+		}
 	}
 	want := c.expect()
 	if want == "either" { // not prescribed: only the consistency of what happened is judged
@@ -624,7 +860,7 @@ func runArgv(c Cell) mon.Result {
 	}
 	ob := &observed{}
 	t0 := time.Now()
-	d, err := generic.NewDriver("127.0.0.1", c.opts(options.WithSystemTransportOpenBin(script))...)
+	d, err := generic.NewDriver(c.host(), c.opts(options.WithSystemTransportOpenBin(script))...)
 	if err != nil {
 		return viol(c, "c14/new-driver-failed", ob, "NewDriver: %v", err)
 	}
@@ -671,6 +907,12 @@ func runArgv(c Cell) mon.Result {
 	if r := checkArgs(c, sa.Argv, ob); r != nil {
 		return *r
 	}
+	resolved := int64(0)
+	if r, ok := resolveCheck(c, sa.Argv, ob); r != nil {
+		return *r
+	} else if ok {
+		resolved = 1
+	}
 	for _, e := range sa.Env {
 		if strings.Contains(e, u.pw) {
 			return viol(c, "c14/password-in-environment", ob, "the password appears in the child's environment (%s…)", strings.SplitN(e, "=", 2)[0])
@@ -682,7 +924,13 @@ func runArgv(c Cell) mon.Result {
 			return viol(c, "c14/argv:unexpected-connection", ob, "a server saw a connection although the transport was pointed at the stand-in binary")
 		}
 	}
-	obs := map[string]int64{"cells": 1, "arglists_checked": 1, "standin_argv_captured": 1}
+	obs := map[string]int64{"cells": 1, "arglists_checked": 1, "standin_argv_captured": 1, "arglists_resolved_with_ssh_G": resolved}
+	if c.CfgKind != "" && c.CfgKind != "benign" {
+		obs["hostile_ssh_config_cells"]++
+	}
+	if c.PortMode != "" {
+		obs["port22_cells"]++
+	}
 	if c.Auth == "password" {
 		if ob.TypedPw != u.pw {
 			return viol(c, "c14/argv:password-not-typed-in-channel", ob, "the stand-in asked for the password in the channel and read %q", ob.TypedPw)
@@ -756,6 +1004,55 @@ func gen(tier string, seed int64) []mon.Case {
 			}
 		}
 	}
+	// what the real client resolves from the library's argument list under hostile ssh config files and
+	// with port 22 (stand-in cells), port-22 decoys (real connections), and the host given as a name
+	for rep := 0; rep < reps; rep++ {
+		k := 0
+		addY := func(kind string, c Cell) {
+			c.Kind, c.Rep, c.ReadSize, c.User = kind, rep, 8192, (k+rep)%2
+			if kind == "argv" {
+				c.Srv = k % 2
+			}
+			cs = append(cs, mon.MkCase(fmt.Sprintf("c14/r%d/y%03d-%s.%s.srv%d", rep, k, kind, strings.ReplaceAll(c.label(), "/", "."), c.Srv), c))
+			k++
+		}
+		for _, cfg := range []string{"benign", "port", "user", "hostname", "identity", "strict-no", "strict-yes", "match", "all"} {
+			for _, pm := range []string{"", "explicit22", "default22"} {
+				for _, strict := range []bool{true, false} {
+					for _, auth := range []string{"password", "key"} {
+						for _, kh := range []string{"has", "none"} {
+							addY("argv", Cell{Transport: "system", Strict: strict, KH: kh, Auth: auth, PortMode: pm, CfgKind: cfg})
+						}
+					}
+				}
+			}
+		}
+		for _, pm := range []string{"explicit22", "default22"} { // stand-in cells with port 22 and no / the plain config file
+			for _, cfgOn := range []bool{false, true} {
+				for _, strict := range []bool{true, false} {
+					addY("argv", Cell{Transport: "system", Strict: strict, KH: "has", Auth: "both", PortMode: pm, Cfg: cfgOn})
+				}
+			}
+		}
+		for _, tr := range []string{"system", "standard"} {
+			for _, pm := range []string{"explicit22", "default22"} {
+				for srv := 0; srv < 2; srv++ {
+					for _, auth := range []string{"password", "key"} {
+						addY("decoy", Cell{Transport: tr, Strict: true, KH: "has", Auth: auth, PortMode: pm, CfgKind: "decoy", Srv: srv})
+					}
+				}
+			}
+		}
+		for _, tr := range []string{"standard", "system"} {
+			for _, n := range []string{"right", "wrong", "none", "hashed"} {
+				for _, ip := range []string{"right", "wrong", "none", "hashed"} {
+					for srv := 0; srv < 2; srv++ {
+						addY("real", Cell{Transport: tr, Strict: true, KH: "n=" + n + ",i=" + ip, Auth: []string{"password", "key"}[(k/2)%2], Host: "localhost", Srv: srv})
+					}
+				}
+			}
+		}
+	}
 	// the known-hosts file changes between opens (same path, one process)
 	for rep := 0; rep < reps; rep++ {
 		k := 0
@@ -784,7 +1081,10 @@ func init() {
 			"ed25519 host keys, plus 192 stand-in cells (system transport started on a stand-in binary that dumps its argv/environment; x {no ssh config, ssh config file}). " +
 			"Plus 48 cells per repetition with unusual but legal known-hosts contents on both transports: @revoked line for the server's key (must fail) / for another key (must connect), " +
 			"hashed host name entry (must connect), and a third server instance presenting a host CERTIFICATE signed by a per-worker CA: @cert-authority with that CA (must connect), " +
-			"unrelated CA or empty file (must fail), only the certified key as a plain entry (outcome not prescribed, recorded). Plus 32 sequences per repetition in which ONE known-hosts path changes its contents between three consecutive strict opens in one process " +
+			"unrelated CA or empty file (must fail), only the certified key as a plain entry (outcome not prescribed, recorded). Plus, per repetition: 224 stand-in cells whose argument list is resolved by the real client (`ssh -G`) under ssh config files with hostile directives " +
+			"(Port/User/HostName/IdentityFile/StrictHostKeyChecking/UserKnownHostsFile under Host *, Host <host>, Match) x port {server port, explicit 22, default 22}: every field the driver " +
+			"configured must survive; 16 port-22 decoy cells (config file names a port of one of our servers: nothing may connect there); 64 cells with the host given as the NAME localhost x known-hosts " +
+			"entry sets {name: right|wrong|none|hashed} x {ip: right|wrong|none|hashed} on both transports (connect iff the entry for the configured NAME matches). Plus 32 sequences per repetition in which ONE known-hosts path changes its contents between three consecutive strict opens in one process " +
 			"(has>other>has, has>empty>has, empty>has>empty, other>has>other; both transports; fresh Transport object per open and one re-used object; transport level, key auth): " +
 			"every open must be decided by the file's contents at that moment. Non-trivial = strict host-key checking is on in the cell. Distinct = distinct descriptor.",
 		Assumptions: []string{
@@ -810,6 +1110,9 @@ func init() {
 			mc.Decode(&c)
 			if c.Kind == "seq" {
 				return runSeq(c)
+			}
+			if c.Kind == "decoy" {
+				return runDecoy(c)
 			}
 			if c.Kind == "argv" {
 				return runArgv(c)
